@@ -48,18 +48,18 @@ var subst = map[[2]string]string{
 	{"k8s.io/apimachinery/pkg/util/wait", "Group"}:                         "WaitGroupK8s",
 	{"golang.org/x/time/rate", "NewLimiter"}:                               "NewRateLimiter",
 	{"golang.org/x/time/rate", "Limiter"}:                                  "RateLimiter",
-	{"math/rand", "Shuffle"}: "RandShuffle", {"math/rand", "Intn"}: "RandIntn",
+	{"math/rand", "Shuffle"}:                                               "RandShuffle", {"math/rand", "Intn"}: "RandIntn",
 	{"k8s.io/utils/lru", "New"}: "NewLRU", {"k8s.io/utils/lru", "Cache"}: "LRU",
-	{"golang.org/x/sync/singleflight", "Group"}:               "SFGroup",
-	{"golang.org/x/sync/errgroup", "Group"}:                   "ErrGroup",
-	{"golang.org/x/sync/errgroup", "WithContext"}:             "ErrGroupWithContext",
+	{"golang.org/x/sync/singleflight", "Group"}:                 "SFGroup",
+	{"golang.org/x/sync/errgroup", "Group"}:                     "ErrGroup",
+	{"golang.org/x/sync/errgroup", "WithContext"}:               "ErrGroupWithContext",
 	{"k8s.io/apimachinery/pkg/util/cache", "NewLRUExpireCache"}: "NewExpireCache",
 	{"k8s.io/apimachinery/pkg/util/cache", "LRUExpireCache"}:    "ExpireCache",
-	{"k8s.io/apimachinery/pkg/apis/meta/v1", "Now"}:           "MetaNow",
-	{"github.com/samber/lo", "Keys"}: "LoKeys", {"github.com/samber/lo", "Values"}: "LoValues",
+	{"k8s.io/apimachinery/pkg/apis/meta/v1", "Now"}:             "MetaNow",
+	{"github.com/samber/lo", "Keys"}:                            "LoKeys", {"github.com/samber/lo", "Values"}: "LoValues",
 	{"github.com/samber/lo", "PickBy"}: "LoPickBy", {"github.com/samber/lo", "FindKeyBy"}: "LoFindKeyBy",
 	{"github.com/samber/lo", "MapToSlice"}: "LoMapToSlice",
-	{"github.com/samber/lo", "OmitBy"}: "LoOmitBy", {"github.com/samber/lo", "MapValues"}: "LoMapValues",
+	{"github.com/samber/lo", "OmitBy"}:     "LoOmitBy", {"github.com/samber/lo", "MapValues"}: "LoMapValues",
 	{"github.com/samber/lo", "MapKeys"}: "LoMapKeys", {"github.com/samber/lo", "MapEntries"}: "LoMapEntries",
 }
 
@@ -411,8 +411,9 @@ func (r *rewriter) markNoHoist(e ast.Expr) {
 }
 
 var (
-	tObject = reflect.TypeOf((*ast.Object)(nil))
-	tScope  = reflect.TypeOf((*ast.Scope)(nil))
+	tObject       = reflect.TypeOf((*ast.Object)(nil))
+	tScope        = reflect.TypeOf((*ast.Scope)(nil))
+	tCommentGroup = reflect.TypeOf((*ast.CommentGroup)(nil))
 )
 
 // rewrite is a post-order, reflection-driven traversal that can replace any node sitting in an
@@ -443,6 +444,11 @@ func (r *rewriter) rewrite(v reflect.Value) {
 			}
 			s := v.Elem()
 			for i := 0; i < s.NumField(); i++ {
+				if s.Field(i).Type() == tCommentGroup {
+					// comments are positioned by offsets that no longer exist: drop every Doc/Comment
+					s.Field(i).Set(reflect.Zero(tCommentGroup))
+					continue
+				}
 				r.rewrite(s.Field(i))
 			}
 			// pointer-typed slots that we may need to transform in place
